@@ -247,6 +247,22 @@ def run(fx, rep, tier):
         r2_r5_mul(facts, sub)
         r3_reconstruct(facts, sub)
         r4_wiring(facts, sub)
+        if cfg == "dev":
+            from . import c05, c19
+            rep.rule("C04-R6", "base dimensions are a multiple of the power: every unit's dimension table is linear in the power "
+                               "(p -> k*p for every base unit), so Pa^2, Pa*Pa and (Pa)^2 have the same base dimensions (shared "
+                               "with C05-R2 / C13-R4)")
+            s2 = type(rep)(rep.prop, rep.tier)
+            c05.powers_are_base_only(facts, s2, "C04-R6")
+            for o in s2.obls:
+                rep.obls.append(o)
+            for f in s2.floors:
+                rep.floors.append(f)
+            s2 = type(rep)(rep.prop, rep.tier)
+            c19.r7_unit_exponent(facts, s2, "C04-R7")
+            rep.rules["C04-R7"] = "the dimension shown is the dimension computed: " + s2.rules["C04-R7"] + " (shared with C19-R7)"
+            for o in s2.obls:
+                rep.obls.append(o)
         if sub is not rep:
             for o in sub.obls:
                 o["key"] += "[rel]"
